@@ -331,6 +331,11 @@ REQUESTS = {
     'lint-non-ascii': ('lint', ('import os\n\u043f\u0435\u0440\u0435\u043c = "\u00e9\u20ac" * 20\nprint(\u043f\u0435\u0440\u0435\u043c, \u043d\u0435\u0442)\n', 'f.py'), {}),
     'eval-non-ascii': ('eval', ('return ["\u00e9" * 20, "\u20ac" * 40, {"\u00fc" * 33: "\U0001f600" * 9}]',), {}),
     'raises-non-ascii': ('eval', ('raise ValueError("\u00fc" * 40)',), {}),
+    # values of subclasses of the serialisable types travel as their base type
+    'eval-subclass-values': ('eval', ('import collections, enum, sys\nP = collections.namedtuple("P", "x y")\nclass S(str): pass\nclass B(bytes): pass\n'
+                                      'class E(enum.IntEnum):\n    A = 1\nclass L(list): pass\n'
+                                      'return [P(1, 2), collections.OrderedDict(a=1), collections.defaultdict(int, b=2), S("s"), B(b"b"), E.A, L([3]), '
+                                      'tuple(sys.version_info[:2]), sys.version_info[:0], {P(0, 0): S("k")}]',), {}),
     # attributes of the server object that are no requests
     'attribute-run': ('run', (), {}),
     'attribute-process': ('process', ('eval', ('return 1',), {}), {}),
@@ -456,7 +461,9 @@ def _play(seq, root, Sv, Wire, dumps, loads):
                 ref = fresh(applied)
                 raise
             try:
-                dumps(r)
+                # can the result be serialised at all?  decided by the reference codec written from the specification, not by the codec under test
+                from spec.msgpack_ref import ref_pack
+                ref_pack(r)
                 want.append((_lists(r), True))
             except Exception:
                 want.append(('error', 'Serialize error'))
@@ -469,7 +476,7 @@ def _play(seq, root, Sv, Wire, dumps, loads):
 
 
 @harness(['C15'], 'supp.server.Server.run / process over the real codec [request sequences]',
-         bounded='every sequence of 1 and 2 requests, and every failing request followed by two good ones, over 16 request kinds (4 that succeed; non-ASCII text in a source, a result and a message; run and process asked for as requests; unknown '
+         bounded='every sequence of 1 and 2 requests, and every failing request followed by two good ones, over 17 request kinds (4 that succeed; non-ASCII text in a source, a result and a message; run and process asked for as requests; unknown '
                  'method, wrong arguments, exception, unserialisable result (flat and nested), syntax error in the request, an exception whose str() raises); '
                  'a result with nested tuples as map keys; 6 configure requests (2 valid, 4 failing: bad dyn_modules, no sources, not a map, wrong arguments) '
                  'before and between 3 questions whose answer depends on the configured source roots (71 sequences of 2 to 4 requests)')
